@@ -369,6 +369,7 @@ def bounded(b):
                 b.case("unfold/no_repeat_marks_left", not left, case, "unfolded part still contains %r" % left, nontrivial=nontriv)
     _score_inputs(b)
     _divisions_inside_repeat(b)
+    _alignment_unfolding(b)
 
 
 def _score_inputs(b):
@@ -433,6 +434,28 @@ def _divisions_inside_repeat(b):
                     bad = bad or "copy %s starts %s quarters into the part, the visited segments before it last %s" % (n.id, O._integral(un, un.first_point.t, n.start.t, "quarter"), pos)
                 pos += orig_q[n.step]
             b.case("unfold/copies_keep_their_duration_in_quarters_under_the_divisions_of_their_segment", bad is None, case, bad or "")
+
+
+def _alignment_unfolding(b):
+    """unfold_part_alignment returns the variant that the performance took: the measures in the order in which the alignment's note ids visit them"""
+    sc = _sc()
+    for name, kw, paths in (("two_repeats", dict(n=4, repeats=[(0, 0), (2, 2)]), ([0, 1, 2, 3], [0, 0, 1, 2, 3], [0, 1, 2, 2, 3], [0, 0, 1, 2, 2, 3])),
+                            ("one_repeat", dict(n=3, repeats=[(0, 1)]), ([0, 1, 2], [0, 1, 0, 1, 2])),
+                            ("three_repeats", dict(n=5, repeats=[(0, 0), (2, 2), (4, 4)]), ([0, 1, 2, 2, 3, 4], [0, 1, 2, 3, 4, 4], [0, 0, 1, 2, 3, 4, 4])),
+                            ("no_repeats", dict(n=3), ([0, 1, 2],))):
+        for path in paths:
+            part = build_repeat_part(**kw)
+            visits, al = {}, []
+            for k, m in enumerate(path):
+                visits[m] = visits.get(m, 0) + 1
+                al.append(dict(label="match", score_id="n%d-%d" % (m, visits[m]), performance_id="p%d" % k))
+            case = {"shape": name, "performed_measures": path}
+            al_before = [dict(a) for a in al]
+            ok, un = b.guard("unfold/alignment_no_exception", case, lambda: sc.unfold_part_alignment(part, al))
+            if not ok:
+                continue
+            seq, notes = _measure_seq(un)
+            b.case("unfold/alignment_play_order", seq == path, case, "the returned part plays the measures %r, the performance %r" % (seq, path))
 
 
 def _same_content(a, b):
